@@ -213,3 +213,14 @@ Theorem C14_nan_is_stored_unclamped :
                   rParamFCb e loc b [Af b] = Some (b, o2) /\
                   undo_events o2 = [undo_event loc Af b b].
 Proof. exact nan_not_clamped. Qed.
+
+(* the declared range is an invariant of every history: with min <= max and the
+   option numbers inside the range, whatever sequence of queries and conforming
+   sets a numeric / option port (scalar or array, any length) receives, every
+   stored element stays an ordered value inside the range *)
+Theorem C14_history_in_range : forall k e ops st st' outs,
+  numeric_kind k -> env_ok e k ->
+  bounds_ordered (kind_key k) (p_min e) (p_max e) -> map_in_range e ->
+  Forall (fun o => conforming e k (op_args o)) ops -> stored_ok e k st ->
+  run k e ops st = Some (st', outs) -> stored_ok e k st'.
+Proof. exact run_inv. Qed.
